@@ -290,6 +290,20 @@ def run_history(acc, rng, hist_seed):
             nonlocal version
             version += 1
             open_bufs[name] = text
+            r_ = rng.random()
+            if r_ < 0.1:
+                # several full-text changes in one notification: the last one is the document
+                from ..client.lsp import uri_of
+                pr.srv.notify("textDocument/didChange", {"textDocument": {"uri": uri_of(pr.path(name)), "version": version},
+                                                         "contentChanges": [{"text": rng.choice(["nop\n", "", text[:len(text) // 2], "lda #\n)"])}, {"text": text}]})
+                events.append(("didChange[2 changes]", name, len(text)))
+                return
+            if r_ < 0.13:
+                # a notification without any change leaves the document as it is
+                from ..client.lsp import uri_of
+                pr.srv.notify("textDocument/didChange", {"textDocument": {"uri": uri_of(pr.path(name)), "version": version}, "contentChanges": []})
+                events.append(("didChange[0 changes]", name, 0))
+                version += 1
             pr.srv.did_change(pr.path(name), text, version)
             events.append(("didChange", name, len(text)))
         send_open("main.asm", disk["main.asm"])
